@@ -43,21 +43,26 @@ def located_run(text):
         except Exception:  # noqa
             p = None
         fits, blank = True, []
+        loose_only = None
+        hard_unfit = False
         if node is not None and node.id == seg.get_seg_id():
             for i in range(len(seg)):
                 ch = node.get_child_node_by_idx(i)
                 if ch is None:
                     fits = False
+                    hard_unfit = True
                     break
                 if ch.usage == 'N':
                     blank.append(i)
                 comp = seg.get('%02i' % (i + 1))
                 if ch.is_composite() and comp is not None and len(comp) > len(ch.children):
                     fits = False
+                    hard_unfit = True
                 if (not ch.is_composite()) and comp is not None and len(comp) > 1:
                     fits = False
+                    loose_only = True if loose_only is None else loose_only      # only: a simple element whose value holds the separator
         env_errs = [e for e in src.err_list if e[0] in ('isa', 'gs', 'st')]
-        rows.append((seg.get_seg_id(), p, seg.format(), node.id if node is not None else None, fits, blank, bool(env_errs)))
+        rows.append((seg.get_seg_id(), p, seg.format(), node.id if node is not None else None, fits, blank, bool(env_errs), hard_unfit))
     fd = io.StringIO()
     exn = None
     try:
@@ -148,7 +153,7 @@ def run(ctx, report):
         if len(segs) != len(rows):
             report.fail('C08:segment-count', '%d source segments, %d <seg> elements' % (len(rows), len(segs)), inp)
             return
-        for (sid, p, formatted, nid, _f, _b, _e), (xid, xpath, el) in zip(rows, segs):
+        for (sid, p, formatted, nid, _f, _b, _e, _h), (xid, xpath, el) in zip(rows, segs):
             want = [x for x in (p or '').split('/') if x]
             if nid == sid and xpath != want:
                 report.fail('C08:nesting:%s' % sid, '<seg id=%s> is inside loops %r but matched a node at %r' % (xid, xpath, want), inp)
@@ -169,9 +174,9 @@ def run(ctx, report):
         # values: every <ele> / <subele> written carries, after the parser has undone the escaping, exactly the source value
         import pyx12.segment
         d0 = (text[105], text[3], text[104])
-        for (sid, p, formatted, nid, fits, _b, _e), (xid, xpath, el) in zip(rows, segs):
-            if nid != sid or not fits:
-                continue
+        for (sid, p, formatted, nid, fits, _b, _e, hard_unfit), (xid, xpath, el) in zip(rows, segs):
+            if nid != sid or hard_unfit:
+                continue           # (a simple element whose value contains the component separator is still data: it is compared)
             try:
                 sg = pyx12.segment.Segment(formatted, d0[0], d0[1], d0[2])
             except Exception:  # noqa
@@ -255,6 +260,10 @@ def run(ctx, report):
             parts_ = sg_.split(d[1])
             if parts_[0] not in docgen.ENVELOPE:
                 for k_ in range(1, len(parts_)):
+                    if d[2] not in parts_[k_] and parts_[k_][:1] == 'X' and len(parts_[k_]) >= 4 and rng.random() < 0.08:
+                        # free text that happens to hold the component separator (a time, a URL) in a SIMPLE element
+                        parts_[k_] = parts_[k_][:2] + d[2] + parts_[k_][2:]
+                        continue
                     if d[2] in parts_[k_] and rng.random() < 0.6:
                         comps_ = parts_[k_].split(d[2])
                         j_ = rng.randrange(len(comps_))
